@@ -454,4 +454,126 @@ theorem so3Exp_smul_taylor (eps : ℝ) (φ : Vec3 ℝ) (a : ℝ) (ha : 0 ≤ a) 
   unfold axisQuat Quat.mk' Vec3.smul tS tC
   ext <;> simp only [] <;> ring
 
+/-! ## statements moved from Props/C19.lean (helpers / structural facts, pass 5) -/
+
+/-- **One-parameter law on the Taylor branch, rotation part** (pass 3 — the branch excluded from
+`exp_one_parameter_closed`): when all three angles `aθ, bθ, (a+b)θ` are at most `eps ≤ 1` (so the code uses its truncated
+series three times), `Exp(aφ)·Exp(bφ)` and `Exp((a+b)φ)` differ by at most `eps⁶/700` in the scalar part and `eps⁷/5000` in
+the norm of the vector part — the law holds up to the truncation order, for every `φ`, `a, b ≥ 0`. -/
+theorem so3Exp_add_taylor (eps : ℝ) (φ : Vec3 ℝ) (a b : ℝ) (ha : 0 ≤ a) (hb : 0 ≤ b) (h1 : eps ≤ 1)
+    (hAB : (a + b) * φ.norm ≤ eps) :
+    |((so3Exp eps (φ.smul a)).mul (so3Exp eps (φ.smul b))).w - (so3Exp eps (φ.smul (a + b))).w| ≤ eps ^ 6 / 700 ∧
+    (((so3Exp eps (φ.smul a)).mul (so3Exp eps (φ.smul b))).vec.sub (so3Exp eps (φ.smul (a + b))).vec).norm ≤ eps ^ 7 / 5000 := by
+  have hθ := Vec3.norm_nonneg φ
+  set θ := φ.norm with hθdef
+  have hu : 0 ≤ a * θ := mul_nonneg ha hθ
+  have hv : 0 ≤ b * θ := mul_nonneg hb hθ
+  have hsum : a * θ + b * θ = (a + b) * θ := by ring
+  have hs : a * θ + b * θ ≤ 1 := by rw [hsum]; linarith
+  have hA : ¬ eps < a * θ := by apply not_lt.mpr; nlinarith
+  have hB : ¬ eps < b * θ := by apply not_lt.mpr; nlinarith
+  have hC : ¬ eps < (a + b) * θ := not_lt.mpr hAB
+  rw [so3Exp_smul_taylor eps φ a ha hA, so3Exp_smul_taylor eps φ b hb hB,
+    so3Exp_smul_taylor eps φ (a + b) (by linarith) hC, axisQuat_mul, ← Vec3.norm_sq, ← hθdef]
+  have hs0 : 0 ≤ a * θ + b * θ := by linarith
+  have hp6 : (a * θ + b * θ) ^ 6 ≤ eps ^ 6 := pow_le_pow_left₀ hs0 (by rw [hsum]; exact hAB) 6
+  have hp7 : (a * θ + b * θ) ^ 7 ≤ eps ^ 7 := pow_le_pow_left₀ hs0 (by rw [hsum]; exact hAB) 7
+  constructor
+  · have := taylor_dw (a * θ) (b * θ) hu hv hs
+    have e : (axisQuat φ (tC (a * θ) * (b * tS (b * θ)) + a * tS (a * θ) * tC (b * θ))
+        (tC (a * θ) * tC (b * θ) - a * tS (a * θ) * (b * tS (b * θ)) * (θ * θ))).w
+        - (axisQuat φ ((a + b) * tS ((a + b) * θ)) (tC ((a + b) * θ))).w
+        = tC (a * θ) * tC (b * θ) - a * θ * (b * θ) * tS (a * θ) * tS (b * θ) - tC (a * θ + b * θ) := by
+      unfold axisQuat; simp only [hsum]; ring
+    rw [e]; linarith
+  · have hvec : ((axisQuat φ (tC (a * θ) * (b * tS (b * θ)) + a * tS (a * θ) * tC (b * θ))
+        (tC (a * θ) * tC (b * θ) - a * tS (a * θ) * (b * tS (b * θ)) * (θ * θ))).vec.sub
+        (axisQuat φ ((a + b) * tS ((a + b) * θ)) (tC ((a + b) * θ))).vec)
+        = φ.smul (tC (a * θ) * (b * tS (b * θ)) + a * tS (a * θ) * tC (b * θ) - (a + b) * tS ((a + b) * θ)) := by
+      unfold axisQuat Quat.vec Vec3.sub Vec3.smul; ext <;> simp only [] <;> ring
+    rw [hvec, norm_smul_abs, ← hθdef]
+    have := taylor_dv (a * θ) (b * θ) hu hv hs
+    have e : |tC (a * θ) * (b * tS (b * θ)) + a * tS (a * θ) * tC (b * θ) - (a + b) * tS ((a + b) * θ)| * θ
+        = |a * θ * tS (a * θ) * tC (b * θ) + b * θ * tS (b * θ) * tC (a * θ) - (a * θ + b * θ) * tS (a * θ + b * θ)| := by
+      rw [← abs_of_nonneg hθ, ← abs_mul, abs_of_nonneg hθ]
+      congr 1; simp only [hsum]; ring
+    rw [e]; linarith
+
+
+/-! ## pure translations: `Exp`/`Log` when the rotation part is exactly trivial -/
+
+theorem polyK_zero_mulVec (b c : ℝ) (t : Vec3 ℝ) : (polyK (1 : ℝ) b c Vec3.zero).mulVec t = t := by
+  unfold polyK; ext <;> lie_unfold <;> simp [Vec3.zero]
+
+/-- `Exp (τ; 0) = (τ, 1)` -/
+theorem se3Exp_pure (eps : ℝ) (h0 : 0 ≤ eps) (t : Vec3 ℝ) : se3Exp eps ⟨t, Vec3.zero⟩ = ⟨t, Quat.one⟩ := by
+  unfold se3Exp so3Jl
+  simp only [so3Exp_zero eps h0, k_real, Nat.cast_one, polyK_zero_mulVec]
+
+/-- `Log (t, q)` with `q.vec = 0` is `(t; 0)` -/
+theorem SE3Log_pure (eps : ℝ) (D : SE3 ℝ) (hv : D.q.vec = Vec3.zero) : SE3Log eps D = ⟨D.t, Vec3.zero⟩ := by
+  have hphi : SO3Log eps D.q = Vec3.zero := by unfold SO3Log; rw [hv, Vec3.smul_of_zero]
+  unfold SE3Log so3JlInv
+  simp only [hphi, k_real, Nat.cast_one, polyK_zero_mulVec]
+
+/-- **`Exp(Log D) ≅ D` for poses whose rotation is exactly the identity (`q = ±1`)** — the case excluded by the generic regime -/
+theorem se3Exp_SE3Log_pure (eps : ℝ) (D : SE3 ℝ) (h0 : 0 ≤ eps) (hD : SE3.Valid D) (hv : D.q.vec = Vec3.zero) :
+    SE3Equiv (se3Exp eps (SE3Log eps D)) D := by
+  rw [SE3Log_pure eps D hv, se3Exp_pure eps h0]
+  refine ⟨rfl, ?_⟩
+  have hx : D.q.x = 0 := by have := congrArg Vec3.x hv; simpa [Quat.vec, Vec3.zero] using this
+  have hy : D.q.y = 0 := by have := congrArg Vec3.y hv; simpa [Quat.vec, Vec3.zero] using this
+  have hz : D.q.z = 0 := by have := congrArg Vec3.z hv; simpa [Quat.vec, Vec3.zero] using this
+  have hn : D.q.x * D.q.x + D.q.y * D.q.y + D.q.z * D.q.z + D.q.w * D.q.w = 1 := hD
+  rw [hx, hy, hz] at hn
+  have hw : (D.q.w - 1) * (D.q.w + 1) = 0 := by ring_nf; ring_nf at hn; linarith
+  rcases mul_eq_zero.mp hw with h | h
+  · left; ext <;> simp [Quat.one, hx, hy, hz]; linarith
+  · right; ext <;> simp [Quat.one, Quat.neg, hx, hy, hz]; linarith
+
+/-- samples of a pure translation motion: `Exp(a·(τ;0)) = (aτ, 1)` -/
+theorem se3Exp_scale_pure (eps : ℝ) (h0 : 0 ≤ eps) (tau : Vec3 ℝ) (a : ℝ) :
+    se3Exp eps (scale ⟨tau, Vec3.zero⟩ a) = ⟨tau.smul a, Quat.one⟩ := by
+  unfold scale
+  simp only [Vec3.smul_of_zero, se3Exp_pure eps h0]
+
+theorem SE3Mul_pure (s t : Vec3 ℝ) : SE3Mul (⟨s, Quat.one⟩ : SE3 ℝ) ⟨t, Quat.one⟩ = ⟨s.add t, Quat.one⟩ := by
+  unfold SE3Mul; ext <;> lie_unfold <;> simp [Quat.one]
+
+/-- one-parameter law for pure translations: exact, every `a`, `b` -/
+theorem se3Exp_add_pure (eps : ℝ) (h0 : 0 ≤ eps) (tau : Vec3 ℝ) (a b : ℝ) :
+    SE3Mul (se3Exp eps (scale ⟨tau, Vec3.zero⟩ a)) (se3Exp eps (scale ⟨tau, Vec3.zero⟩ b))
+      = se3Exp eps (scale ⟨tau, Vec3.zero⟩ (a + b)) := by
+  rw [se3Exp_scale_pure eps h0, se3Exp_scale_pure eps h0, se3Exp_scale_pure eps h0, SE3Mul_pure]
+  congr 1; ext <;> simp [Vec3.add, Vec3.smul] <;> ring
+
+/-- consecutive samples of a pure translation motion have relative logarithm `(τ; 0)` -/
+theorem delta_twist_step_pure (eps : ℝ) (h0 : 0 ≤ eps) (T0 : SE3 ℝ) (hT0 : SE3.Valid T0) (tau : Vec3 ℝ) (j : Nat) :
+    delta eps (SE3Mul T0 (se3Exp eps (scale ⟨tau, Vec3.zero⟩ (j : ℝ))))
+      (SE3Mul T0 (se3Exp eps (scale ⟨tau, Vec3.zero⟩ ((j + 1 : ℕ) : ℝ)))) = ⟨tau, Vec3.zero⟩ := by
+  have hEj : SE3.Valid (se3Exp eps (scale ⟨tau, Vec3.zero⟩ (j : ℝ))) := by
+    rw [se3Exp_scale_pure eps h0]; exact SO3_valid_one
+  rw [delta_left_invariant eps T0 _ _ hT0 hEj]
+  have hc1 : ((j + 1 : ℕ) : ℝ) = (j : ℝ) + 1 := by push_cast; ring
+  unfold delta
+  rw [hc1, ← se3Exp_add_pure eps h0 tau (j : ℝ) 1, ← SE3_mul_assoc _ _ _ (SE3_valid_inv _ hEj) hEj, SE3_inv_mul _ hEj,
+    SE3_one_mul, scale_one, se3Exp_pure eps h0]
+  exact SE3Log_pure eps _ (by ext <;> simp [Quat.vec, Quat.one, Vec3.zero])
+
+/-- first step of a constant-twist motion (`j = 0`, generic regime): `Log(Exp(0·ξ)⁻¹ Exp(1·ξ)) = ξ` -/
+theorem delta_twist_step_zero (eps : ℝ) (T0 : SE3 ℝ) (xi : se3 ℝ) (h0 : 0 ≤ eps) (hT0 : SE3.Valid T0)
+    (hθ : eps < xi.phi.norm) (hπ : xi.phi.norm < Real.pi)
+    (hs : eps < Real.sin (xi.phi.norm / 2)) (hc : eps < Real.cos (xi.phi.norm / 2)) :
+    delta eps (SE3Mul T0 (se3Exp eps (scale xi ((0 : ℕ) : ℝ)))) (SE3Mul T0 (se3Exp eps (scale xi ((0 + 1 : ℕ) : ℝ)))) = xi := by
+  have e0 : se3Exp eps (scale xi ((0 : ℕ) : ℝ)) = SE3one := by
+    rw [Nat.cast_zero, scale_zero_right, se3Exp_zero eps h0]
+  rw [e0, delta_left_invariant eps T0 _ _ hT0 SE3_valid_one]
+  unfold delta
+  have hinv : SE3Inv (SE3one : SE3 ℝ) = SE3one := by
+    have := SE3_inv_mul (SE3one : SE3 ℝ) SE3_valid_one
+    rwa [SE3_mul_one] at this
+  rw [hinv, SE3_one_mul]
+  simp only [Nat.zero_add, Nat.cast_one, scale_one]
+  exact SE3Log_se3Exp eps xi h0 hθ hπ hs hc
+
 end PP.Spline
